@@ -769,6 +769,11 @@ class SymEval:
                     ks = '@k(%s)' % z.show()
                     self.periods.add(ks)
                     return z + Poly.sym(ks).scale(p.const_value())
+                if isinstance(p, Poly) and isinstance(z, Poly) and len(p.t) == 1 and not p.is_const():
+                    # symbolic period (the ellipsoid area): z + P k
+                    ks = '@k(%s)' % z.show()
+                    self.periods.add(ks)
+                    return z + Poly.sym(ks) * p
                 return self.pure('remainder', [z, p])
             if name in ('fabs', 'abs') and len(args) == 1:
                 z = self.ev(fr, args[0])
